@@ -13,8 +13,8 @@ import (
 
 	"github.com/openconfig/goyang/pkg/yang"
 	"verif/mc/core"
-	"verif/mc/gen/scale"
 	"verif/mc/gen/lexspace"
+	"verif/mc/gen/scale"
 	"verif/mc/ref/rfcread"
 )
 
@@ -207,7 +207,7 @@ func shards(tier string) []string {
 	for k := 0; k < 4; k++ {
 		out = append(out, fmt.Sprintf("long/%d", k))
 	}
-	return out
+	return append(out, "cli")
 }
 
 // longTexts: one-line texts in which a token, a quoted string, a concatenation or a comment runs for
@@ -400,6 +400,8 @@ func run(c *core.Ctx) {
 		rec(faultAlpha[i]+faultAlpha[j], 2)
 	case strings.HasPrefix(c.Shard, "sem/"):
 		runSem(c)
+	case c.Shard == "cli":
+		runCLI(c)
 	}
 }
 
@@ -416,6 +418,8 @@ func replay(tier string, raw json.RawMessage) (bool, string, string) {
 		f = checkFault(injected{in.Fault, in.Text, in.Want})
 	case "sem":
 		f = checkSem(in)
+	case "cli":
+		f = checkCLI(in.Text)
 	}
 	if f == nil {
 		return false, "", "positions agree"
@@ -426,7 +430,7 @@ func replay(tier string, raw json.RawMessage) (bool, string, string) {
 func init() {
 	core.Register(&core.Prop{
 		ID: "C16", Variant: "plain", Shards: shards, Run: run, Replay: replay,
-		Rule:        "pos: every text of the C02 lexical spaces that the reference reader accepts with at least one statement - Location() of every statement must be file:line:col of the first character of its keyword as computed by the reference reader (1-based, columns in characters); fault: every accepted template over a 14-piece alphabet (tabs, CR LF, multi-byte runes, comments, multi-line strings) with one fault injected at every applicable token (stray }, removed ;, quoted keyword, four invalid escapes, unterminated \", ', /*) - the first error line must start with the position of the offending token / backslash / opener; sem: module templates re-laid-out in hostile layouts with one semantic fault (unknown substatement, missing mandatory substatement, unknown type, unknown grouping, bad range, bad length, bad enum value) at every eligible statement - every file:line:col in any error must be the start of a statement and the statement the property names must be named; states = distinct templates/texts; non-trivial = compared cases",
+		Rule:        "pos: every text of the C02 lexical spaces that the reference reader accepts with at least one statement - Location() of every statement must be file:line:col of the first character of its keyword as computed by the reference reader (1-based, columns in characters); fault: every accepted template over a 14-piece alphabet (tabs, CR LF, multi-byte runes, comments, multi-line strings) with one fault injected at every applicable token (stray }, removed ;, quoted keyword, four invalid escapes, unterminated \", ', /*) - the first error line must start with the position of the offending token / backslash / opener; sem: module templates re-laid-out in hostile layouts with one semantic fault (unknown substatement, missing mandatory substatement, unknown type, unknown grouping, bad range, bad length, bad enum value) at every eligible statement - every file:line:col in any error must be the start of a statement and the statement the property names must be named; cli: the goyang command fed 6 texts behind 10 leading layouts on standard input - the positions in its error messages and in its --types_debug listing are those the library reports for the identical text; states = distinct templates/texts; non-trivial = compared cases",
 		Assumptions: []string{"the reference reader's positions are the true positions", "for cascading lexical faults only the first reported error line is compared", "missing-closing-brace and unexpected-EOF reports are outside the claim"},
 	})
 }
